@@ -1920,19 +1920,19 @@ func (k *Kernel) handleReplayedHeader(
 		}
 	}
 
-	if proof.Round > s.Voting.Round {
-		// Later round than we expected.
-		if err := k.jumpVotingRound(ctx, s, proof.Round); err != nil {
-			return tmelink.ReplayedHeaderInternalError{
-				Err: fmt.Errorf(
-					"failed to jump voting round to replayed round: %w",
-					err,
-				),
-			}
-		}
-	}
-
 	h, r := header.Height, proof.Round
+
+	// The replayed round may be later than our voting round.
+	// We only move the voting round once the replayed header and its proof
+	// have been fully validated, so until then we work against whichever
+	// existing precommits we hold for exactly the replayed round.
+	var existingPrecommits map[string]gcrypto.CommonMessageSignatureProof
+	switch r {
+	case s.Voting.Round:
+		existingPrecommits = s.Voting.PrecommitProofs
+	case s.Voting.Round + 1:
+		existingPrecommits = s.NextRound.PrecommitProofs
+	}
 
 	// The signatures in the proof must be checked against
 	// the validator set we expect for this height,
@@ -1993,7 +1993,7 @@ func (k *Kernel) handleReplayedHeader(
 	tempProofs := make(map[string]gcrypto.CommonMessageSignatureProof, len(proof.Proofs))
 	for hash, sparseSigs := range proof.Proofs {
 		// First, set up the local copy of the proof.
-		haveProof := s.Voting.PrecommitProofs[hash]
+		haveProof := existingPrecommits[hash]
 		if haveProof == nil {
 			// No precommit data exists, so build it.
 			precommitContent, err := tmconsensus.PrecommitSignBytes(
@@ -2064,34 +2064,6 @@ func (k *Kernel) handleReplayedHeader(
 		}
 	}
 
-	// Now the voting view matches the height and round of the incoming replayed proof.
-	// It is possible that we already saw the incoming header and got stuck leading to a replay.
-	// Make sure we have only one copy.
-	if !slices.ContainsFunc(s.Voting.ProposedHeaders, func(ph tmconsensus.ProposedHeader) bool {
-		return bytes.Equal(ph.Header.Hash, header.Hash)
-	}) {
-		// Didn't have the hash, so append it...
-		// but we only have a Header, not a proposed Header, so we leave a couple fields blank.
-		// This seems acceptable but there is a chance it could cause something to break.
-		fakePH := tmconsensus.ProposedHeader{
-			Header: header,
-			Round:  proof.Round,
-			// Explicitly missing ProposerPubKey, Annotations, and Signature.
-			// That is fine, as noted in the documentation for the RoundStore.
-		}
-
-		if err := k.rStore.SaveRoundReplayedHeader(ctx, header); err != nil {
-			return tmelink.ReplayedHeaderInternalError{
-				Err: fmt.Errorf(
-					"failed to save replayed header to round store: %w",
-					err,
-				),
-			}
-		}
-
-		s.Voting.ProposedHeaders = append(s.Voting.ProposedHeaders, fakePH)
-	}
-
 	// Now ensure we have majority vote power,
 	// otherwise the replay cannot proceed.
 	headerProof := tempProofs[string(header.Hash)]
@@ -2124,6 +2096,48 @@ func (k *Kernel) handleReplayedHeader(
 				maj, header.Hash, blockPow,
 			),
 		}
+	}
+
+	// The header and its proof are valid and sufficient.
+	// Now move the voting round up to the replayed round, if it was later than we expected.
+	// jumpVotingRound moves one round at a time.
+	for s.Voting.Round < r {
+		if err := k.jumpVotingRound(ctx, s, r); err != nil {
+			return tmelink.ReplayedHeaderInternalError{
+				Err: fmt.Errorf(
+					"failed to jump voting round to replayed round: %w",
+					err,
+				),
+			}
+		}
+	}
+
+	// Now the voting view matches the height and round of the incoming replayed proof.
+	// It is possible that we already saw the incoming header and got stuck leading to a replay.
+	// Make sure we have only one copy.
+	if !slices.ContainsFunc(s.Voting.ProposedHeaders, func(ph tmconsensus.ProposedHeader) bool {
+		return bytes.Equal(ph.Header.Hash, header.Hash)
+	}) {
+		// Didn't have the hash, so append it...
+		// but we only have a Header, not a proposed Header, so we leave a couple fields blank.
+		// This seems acceptable but there is a chance it could cause something to break.
+		fakePH := tmconsensus.ProposedHeader{
+			Header: header,
+			Round:  proof.Round,
+			// Explicitly missing ProposerPubKey, Annotations, and Signature.
+			// That is fine, as noted in the documentation for the RoundStore.
+		}
+
+		if err := k.rStore.SaveRoundReplayedHeader(ctx, header); err != nil {
+			return tmelink.ReplayedHeaderInternalError{
+				Err: fmt.Errorf(
+					"failed to save replayed header to round store: %w",
+					err,
+				),
+			}
+		}
+
+		s.Voting.ProposedHeaders = append(s.Voting.ProposedHeaders, fakePH)
 	}
 
 	// Store the updated proofs back into the long-lived local set.
